@@ -94,6 +94,7 @@ type ventry struct {
 	key  string
 	off  uint64
 	kind int
+	free bool
 }
 
 // vfree is an entry with a symbolic 1-byte key, symbolic 40-bit offset and symbolic change kind
@@ -102,7 +103,7 @@ func vfree(name string) ventry {
 	base := rt.U64(name + "_off")
 	rt.Assume(base != 0 && base <= Mask)
 	kind := vAdd + rt.Choice(name+"_kind", 3)
-	return ventry{k, base | vflags2(kind), kind}
+	return ventry{k, base | vflags2(kind), kind, true}
 }
 
 // branch-free flag selection (kind is symbolic)
@@ -114,7 +115,7 @@ func vflags2(kind int) uint64 {
 func vramp(start byte, n int, off uint64) []ventry {
 	es := make([]ventry, n)
 	for i := range es {
-		es[i] = ventry{string([]byte{start + byte(2*i)}), off + uint64(i), vAdd}
+		es[i] = ventry{string([]byte{start + byte(2*i)}), off + uint64(i), vAdd, false}
 	}
 	return es
 }
@@ -195,11 +196,14 @@ func vmergeCheck(bufs [][][]ventry) {
 		rt.Assume(vsorted(flat[i]))
 		ibs[i] = vbuild(chunks...)
 	}
-	// the change sequence for every key must be a valid one (what layering guarantees)
+	// the change sequence for every key must be a valid one (what layering guarantees); ramp
+	// entries are plain adds in the first buffer, so it is enough to fold at the free entries' keys
 	for _, es := range flat {
 		for _, e := range es {
-			k, _ := vfold(flat, e.key)
-			rt.Assume(k != vBad)
+			if e.free {
+				k, _ := vfold(flat, e.key)
+				rt.Assume(k != vBad)
+			}
 		}
 	}
 	snaps := make([][]slot, len(ibs))
@@ -246,7 +250,7 @@ func vmergeCheck(bufs [][][]ventry) {
 
 // C11 Merge of 2..3 small buffers (1..2 entries each, arbitrary 1-byte keys, offsets, kinds).
 //
-//symgo:harness prop=C11 tier=quick shards=16 timeout=400 ttimeout=1700 bounds=2..3_buffers;1..2_entries_each(thorough_1..3);1-byte_keys;40-bit_offsets;all_valid_change_kinds
+//symgo:harness prop=C11 tier=quick shards=16 timeout=400 ttimeout=1700 bounds=2..3_buffers;1..2_entries_each_(third_buffer_1;_thorough_1..3_each);1-byte_keys;40-bit_offsets;all_valid_change_kinds
 func VerifC11MergeSmall() {
 	nb := 2 + rt.Pick("nbufs", 2)
 	maxn := 2
@@ -255,7 +259,10 @@ func VerifC11MergeSmall() {
 	}
 	bufs := make([][][]ventry, nb)
 	for i := range bufs {
-		n := 1 + rt.Pick("n"+string(rune('0'+i)), maxn)
+		n := 1
+		if i < 2 || rt.Thorough() {
+			n = 1 + rt.Pick("n"+string(rune('0'+i)), maxn)
+		}
 		es := make([]ventry, n)
 		for j := range es {
 			es[j] = vfree("e" + string(rune('0'+i)) + string(rune('0'+j)))
@@ -269,7 +276,7 @@ func VerifC11MergeSmall() {
 // 12-slot chunks (appended to the output buffer, which is flushed when it exceeds the goal) and
 // free entries that may fall before, inside, on or after them.
 //
-//symgo:harness prop=C11 tier=quick shards=16 timeout=400 ttimeout=1700 bounds=buffer1_of_chunks_{13}|{12,12}|{13,12}_concrete_ramp_keys_plus_one_free_entry;buffer2_of_1..2_free_entries;optional_buffer3_of_1_free_entry
+//symgo:harness prop=C11 tier=quick shards=16 timeout=400 ttimeout=1700 bounds=buffer1_of_chunks_{13}|{12,12}|{13,12}_concrete_ramp_keys_plus_one_free_entry;buffer2_of_1..2_free_entries;(thorough:_optional_buffer3_of_1_free_entry)
 func VerifC11MergeChunks() {
 	var b1 [][]ventry
 	switch rt.Pick("shape", 3) {
@@ -286,7 +293,7 @@ func VerifC11MergeChunks() {
 		b2[j] = vfree("u" + string(rune('0'+j)))
 	}
 	bufs := [][][]ventry{b1, {b2}}
-	if rt.Pick("third", 2) == 1 {
+	if rt.Thorough() && rt.Pick("third", 2) == 1 {
 		bufs = append(bufs, [][]ventry{{vfree("w")}})
 	}
 	vmergeCheck(bufs)
